@@ -28,6 +28,7 @@ func runC06(c *Ctx, r *Report) {
 	c01R1(c, r, "C06.R6")
 	c06R7(c, r, "C06.R7")
 	c06R10(c, r, "C06.R10")
+	c06R11(c, r, "C06.R11")
 	c02R1(c, r, "C06.R8")     // the combinators hand a "need more data" answer up unchanged (it is never overwritten by a later set's "no")
 	c02Router(c, r, "C06.R9") // the router never acts on a verdict that is stale for the stream as it is now (fragmented == whole delivery)
 }
@@ -721,4 +722,140 @@ func c06R10(c *Ctx, r *Report, rule string) {
 			r.check(used, rule, fname(fn), k, c.ipos(rc.call), "the count returned by Read is used", "a plain Read on the connection ignores the returned count: when the first segment carries fewer bytes than the buffer, the rest of the buffer is stale/zero and the matcher gives a definite verdict on a proper prefix (io.ReadFull reports that as need-more)")
 		}
 	}
+}
+
+// c06R11: what a read put into a buffer is looked at only once the read is known to have succeeded. A buffer
+// examined before the error of the read that fills it was tested contains zeros (or stale bytes) for the part that
+// has not arrived: the matcher decides on bytes the client never sent instead of asking for more.
+func c06R11(c *Ctx, r *Report, rule string) {
+	r.rule(rule, "in matcher-reachable code, every use of the contents of a buffer filled by a call that reads from the connection (indexing, ranging, slicing for a parser, passing it on) that can execute after that call lies on the edge where the call's error is nil", 20)
+	mreach := c.matcherReach()
+	for _, fn := range sortedFuncs(mreach) {
+		if len(fn.Blocks) == 0 || strings.HasPrefix(fname(fn), "layer4.(*Connection)") {
+			continue
+		}
+		for _, rc := range findReadingCalls(fn) {
+			if rc.errV == nil {
+				continue
+			}
+			// the buffer argument: a []byte passed to the reading call
+			var buf ssa.Value
+			for _, a := range rc.call.Call.Args {
+				if sl, ok := a.Type().Underlying().(*types.Slice); ok {
+					if bt, ok := sl.Elem().Underlying().(*types.Basic); ok && bt.Kind() == types.Uint8 {
+						buf = a
+					}
+				}
+			}
+			if buf == nil {
+				continue
+			}
+			base := buf
+			for {
+				if s2, ok := base.(*ssa.Slice); ok {
+					base = s2.X
+					continue
+				}
+				break
+			}
+			id := calleeID(rc.call)
+			k := fmt.Sprintf("%s#%d buffer", id, rc.ord)
+			al := aliasesOf(rc.errV)
+			// blocks entered over an edge on which the error is known to be nil
+			nilEdges := map[*ssa.BasicBlock]bool{}
+			for _, b := range fn.Blocks {
+				ifi, ok := b.Instrs[len(b.Instrs)-1].(*ssa.If)
+				if !ok {
+					continue
+				}
+				if x, neq, ok := nilCheck(ifi.Cond); ok && al[x] {
+					if neq {
+						nilEdges[b.Succs[1]] = true
+					} else {
+						nilEdges[b.Succs[0]] = true
+					}
+				}
+			}
+			var early []string
+			seen := map[ssa.Value]bool{}
+			var visit func(v ssa.Value, d int)
+			visit = func(v ssa.Value, d int) {
+				if v == nil || seen[v] || d > 6 || v.Referrers() == nil {
+					return
+				}
+				seen[v] = true
+				for _, ref := range *v.Referrers() {
+					in := ref
+					if in == ssa.Instruction(rc.call) {
+						continue
+					}
+					isUse := false
+					switch x := in.(type) {
+					case *ssa.IndexAddr:
+						// a load through the element address
+						if x.Referrers() != nil {
+							for _, r2 := range *x.Referrers() {
+								if ld, ok := r2.(*ssa.UnOp); ok && ld.Op == token.MUL {
+									isUse = true
+								}
+							}
+						}
+					case *ssa.Index, *ssa.Range, *ssa.Lookup:
+						isUse = true
+					case *ssa.Slice:
+						// buf[:n] with the count the read returned covers exactly what arrived
+						if cnt := extractOf(rc.call, 0); cnt != nil && x.High != nil && derivesFrom(x.High, cnt) {
+							continue
+						}
+						visit(x, d+1)
+					case *ssa.Convert, *ssa.ChangeType, *ssa.Phi:
+						if vv, ok := in.(ssa.Value); ok {
+							visit(vv, d+1)
+						}
+					case ssa.CallInstruction:
+						cid := calleeID(x)
+						if cid != "builtin len" && cid != "builtin cap" && !isReadingCallee(cid) {
+							isUse = true
+						}
+					}
+					if !isUse || !canReach(rc.call, in) {
+						continue
+					}
+					// every way from the read to this use must pass an edge on which (an alias of) the error is nil
+					if reachesAvoiding(rc.call, in, nilEdges) {
+						early = append(early, c.ipos(in))
+					}
+				}
+			}
+			visit(base, 0)
+			sort.Strings(early)
+			r.check(len(early) == 0, rule, fname(fn), k, c.ipos(rc.call), "the buffer is examined only where the read is known to have succeeded", "the buffer filled by this read is examined at "+strings.Join(dedup(early), ", ")+" before (or regardless of) the test of the read's error: after a short read the missing part is zeros, so the matcher gives a definite verdict on bytes that have not arrived instead of need-more")
+		}
+	}
+}
+
+func isReadingCallee(id string) bool {
+	return id == "io.ReadFull" || id == "io.ReadAtLeast" || strings.HasSuffix(id, ".Read") || id == "encoding/binary.Read"
+}
+
+// reachesAvoiding: instruction `to` can execute after `from` on a path that enters none of the blocks in avoid.
+func reachesAvoiding(from, to ssa.Instruction, avoid map[*ssa.BasicBlock]bool) bool {
+	if from.Block() == to.Block() && instrIndex(from) < instrIndex(to) {
+		return true
+	}
+	seen := map[*ssa.BasicBlock]bool{}
+	work := append([]*ssa.BasicBlock(nil), from.Block().Succs...)
+	for len(work) > 0 {
+		b := work[len(work)-1]
+		work = work[:len(work)-1]
+		if seen[b] || avoid[b] {
+			continue
+		}
+		seen[b] = true
+		if b == to.Block() {
+			return true
+		}
+		work = append(work, b.Succs...)
+	}
+	return false
 }
